@@ -30,6 +30,15 @@ pub(crate) fn optimize(
     symbol_list: &SymbolList,
     enabled_modes: FlagSet<EncodationType>,
 ) -> Option<Vec<(usize, EncodationType)>> {
+    #[cfg(feature = "verif_hooks")]
+    crate::verif::update(|s| {
+        *s = crate::verif::PlanStats {
+            written,
+            input_len: data.len(),
+            calls: s.calls + 1,
+            ..Default::default()
+        }
+    });
     let start_plan = GenericPlan::for_mode(mode, data, written, symbol_list);
 
     let mut plans = Vec::with_capacity(36);
@@ -48,6 +57,8 @@ pub(crate) fn optimize(
         let rest_chars = data.len() - iteration;
         for mut plan in plans.drain(0..) {
             let plan_copy_before_step = plan.clone();
+            #[cfg(feature = "verif_hooks")]
+            crate::verif::update(|s| s.steps += 1);
             let result = if let Some(result) = plan.step() {
                 result
             } else {
@@ -81,7 +92,14 @@ pub(crate) fn optimize(
             assert_eq!(result.end, at_end);
         }
 
+        #[cfg(feature = "verif_hooks")]
+        crate::verif::update(|s| s.max_before_prune = s.max_before_prune.max(new_plan.len()));
         remove_hopeless_cases(&mut new_plan);
+        #[cfg(feature = "verif_hooks")]
+        crate::verif::update(|s| {
+            s.iterations += 1;
+            s.max_live = s.max_live.max(new_plan.len());
+        });
 
         if new_plan.is_empty() {
             return None;
@@ -97,6 +115,8 @@ pub(crate) fn optimize(
                     (p.cost().ceil(), max_enc, p.switches.len())
                 })
                 .unwrap();
+            #[cfg(feature = "verif_hooks")]
+            crate::verif::update(|s| s.chosen_cost = Some(plan.cost().verif_ceil_codewords()));
             plan.switches.push((0, plan.current()));
 
             // Remove a "switch" to ASCII if we are at the very beginning
